@@ -145,6 +145,9 @@ func checkACL(acls []string, remoteAddr string) error {
 	if err != nil {
 		return fmt.Errorf("BUG: invalid remote address %q", remoteAddr)
 	}
+	// A link-local IPv6 peer comes with its zone ("fe80::1%eth0"), which
+	// net.ParseIP does not accept and which plays no role for the ACL.
+	host, _, _ = strings.Cut(host, "%")
 	remoteIP := net.ParseIP(host)
 	if remoteIP == nil {
 		return fmt.Errorf("BUG: invalid remote host %q", host)
